@@ -76,7 +76,7 @@ def encode : Err → Enc
       if known then .wrap [] (detOf P e [] (.str h)) mtPrefix [] (encode c) else generic
     | .withMark m t =>
       if known then .wrap [] (detOf P e [] (.mark m t)) mtPrefix [] (encode c) else generic
-    | .withContext tags _ =>
+    | .withContext tags _ _ =>
       if known then .wrap [] (detOf P e (layerDetails P vf e) (.tags tags)) mtPrefix [] (encode c) else generic
     | .withHTTPCode n =>
       if known then .wrap [] (detOf P e [lit "HTTP " ++ natStr n] (.http n)) mtPrefix [] (encode c) else generic
@@ -133,7 +133,7 @@ abbrev k_withDetail : Str := (WrapKind.withDetail []).ty.full
 abbrev k_withIssueLink : Str := (WrapKind.withIssueLink [] []).ty.full
 abbrev k_withTelemetry : Str := (WrapKind.withTelemetry []).ty.full
 abbrev k_withDomain : Str := (WrapKind.withDomain []).ty.full
-abbrev k_withContext : Str := (WrapKind.withContext [] none).ty.full
+abbrev k_withContext : Str := (WrapKind.withContext [] [] none).ty.full
 abbrev k_withAssertionFailure : Str := WrapKind.withAssertionFailure.ty.full
 abbrev k_withSafeDetails : Str := (WrapKind.withSafeDetails []).ty.full
 abbrev k_withMark : Str := (WrapKind.withMark [] []).ty.full
@@ -298,7 +298,7 @@ def buildWrap (path : List Nat) (msg : Str) (d : Det) (mt : Nat) (hid : List Enc
     (match hid, d.pay with
     | [], .tags l =>
       if l = [] ∧ d.rep = [] then some opq
-      else some (.wrap path (.withContext (dedupTags l) (if d.rep = [] then none else some d.rep)) c)
+      else some (.wrap path (.withContext (dedupTags l) [] (if d.rep = [] then none else some d.rep)) c)
     | _, _ => some opq)
   | .withHTTPCode =>
     (match hid, d.pay with
